@@ -35,7 +35,7 @@ ASSUMPTIONS = [
 ]
 
 FRACS = [0, 0.1, 0.25, 0.5, 0.9, 1, None]
-POWERS = [-1, 0, 0.5, 0.5 + 2.0 ** -20, 0.6, 0.8, 1, 1 + 2.0 ** -20, 2]
+POWERS = [-1, 0, 0.5, 0.5 + 2.0 ** -20, 0.6, 0.8, 1, 1 + 2.0 ** -20, 2, float("nan"), float("inf"), float("-inf")]
 
 
 def bounds(tier):
@@ -70,12 +70,23 @@ class Probe:
         self.calls.append(({k: v.clone() for k, v in sufficient_statistics.items()}, burn_in))
 
 
-def make_algo(n_iter, frac, count, power):
+def make_algo(n_iter, frac, count, power, route="settings", annealing=False):
+    """route 'settings': everything through AlgorithmSettings; route 'load_parameters': the explicit count is given
+    afterwards through the documented `algo.load_parameters({...})`; annealing=True switches the (default) annealing on."""
+    kw = {}
+    if annealing:
+        kw["annealing"] = dict(do_annealing=True, initial_temperature=3, n_plateau=3)
     with warnings.catch_warnings():
         warnings.simplefilter("ignore")
+        if route == "settings":
+            settings = AlgorithmSettings("mcmc_saem", n_iter=n_iter, progress_bar=False, seed=0,
+                                         n_burn_in_iter_frac=frac, n_burn_in_iter=count, burn_in_step_power=power, **kw)
+            return algorithm_factory(settings)
         settings = AlgorithmSettings("mcmc_saem", n_iter=n_iter, progress_bar=False, seed=0,
-                                     n_burn_in_iter_frac=frac, n_burn_in_iter=count, burn_in_step_power=power)
-        return algorithm_factory(settings)
+                                     n_burn_in_iter_frac=0.9 if frac is None else frac, burn_in_step_power=power, **kw)
+        algo = algorithm_factory(settings)
+        algo.load_parameters({"n_iter": n_iter, "n_burn_in_iter": count})
+        return algo
 
 
 def reference_weights(n_iter, n_b, power):
@@ -97,11 +108,12 @@ def reference_weights(n_iter, n_b, power):
 
 def run_config(cfg):
     n_iter, frac, count, power = cfg["n_iter"], cfg["frac"], cfg["count"], cfg["power"]
+    route, annealing = cfg.get("route", "settings"), cfg.get("annealing", False)
     problems = []
     should_refuse_power = not (0.5 < power <= 1)
     should_refuse_burn = frac is None and count is None
     try:
-        algo = make_algo(n_iter, frac, count, power)
+        algo = make_algo(n_iter, frac, count, power, route, annealing)
     except LeaspyAlgoInputError:
         if not (should_refuse_power or should_refuse_burn):
             problems.append(("constructor|valid configuration refused|", f"{cfg}"))
@@ -109,7 +121,7 @@ def run_config(cfg):
     except Exception as e:
         return "refused-other", None, [(f"constructor|{type(e).__name__} instead of LeaspyAlgoInputError|", f"{e}")]
     if should_refuse_power:
-        problems.append(("constructor|step power outside (0.5, 1] accepted|" + ("power <= 0.5" if power <= 0.5 else "power > 1"), f"{cfg}"))
+        problems.append(("constructor|step power outside (0.5, 1] accepted|" + ("power is NaN" if power != power else "power <= 0.5" if power <= 0.5 else "power > 1"), f"{cfg}"))
         return "accepted-bad-power", None, problems
     if should_refuse_burn:
         problems.append(("constructor|neither burn-in fraction nor count accepted|", f"{cfg}"))
@@ -117,7 +129,8 @@ def run_config(cfg):
     n_b_ref = count if count is not None else int(frac * n_iter)
     n_b = algo.algo_parameters["n_burn_in_iter"]
     if n_b != n_b_ref:
-        problems.append(("constructor|length of the memory-less phase|" + ("count given" if count is not None else "from fraction"),
+        problems.append(("constructor|length of the memory-less phase|" + ("count given" if count is not None else "from fraction")
+                         + (", annealing on" if annealing else "") + (", through load_parameters" if route != "settings" else ""),
                          f"n_burn_in_iter={n_b} expected {n_b_ref} for {cfg}"))
         n_b_ref = n_b  # keep checking the recursion relative to what the algorithm holds
     probe = Probe(algo, n_iter + 1)
@@ -164,6 +177,15 @@ def configs(tier):
             for count in counts:
                 for frac in (None, 0.5):
                     yield {"n_iter": n_iter, "frac": frac, "count": count, "power": power}
+            if power in (0.8, 1) and n_iter >= 2:
+                # the same explicit counts given afterwards through load_parameters; and annealing switched on with a
+                # memory-less phase shorter than the annealing phase (default: 50% of the iterations)
+                for count in counts:
+                    if count <= n_iter:
+                        yield {"n_iter": n_iter, "frac": None, "count": count, "power": power, "route": "load_parameters"}
+                for frac in (0, 0.1, 0.25):
+                    yield {"n_iter": n_iter, "frac": frac, "count": None, "power": power, "annealing": True}
+                yield {"n_iter": n_iter, "frac": 0.5, "count": 1, "power": power, "annealing": True}
 
 
 # ------------------------------------------------------------------------------------------
@@ -284,6 +306,8 @@ def replay(case):
         acc = Acc()
         run_real(acc, case["model"], case["n_iter"], case["frac"], case["power"])
         return [{"signature": v["signature"], "message": v["message"]} for v in acc.violations.values()]
-    cfg = {k: case[k] for k in ("n_iter", "frac", "count", "power")}
+    cfg = {k: case[k] for k in ("n_iter", "frac", "count", "power", "route", "annealing") if k in case}
+    if isinstance(cfg["power"], str):  # NaN / inf are stored as text in JSON
+        cfg["power"] = float(cfg["power"])
     _, trace, problems = run_config(cfg)
     return [{"signature": s, "message": m} for s, m in problems]
